@@ -59,8 +59,31 @@ def r16_1(ctx: Ctx):
     return obs
 
 
+def _bounded_counter_obs(ctx: Ctx, rule: str):
+    """A wrapper whose n_evaluations is the length of a bounded container (deque(maxlen=..)) stops counting at the bound."""
+    out = []
+    base = ctx.prog.cls("ProblemWrapper")
+    for ci in ctx.prog.subclasses(base):
+        m = ci.methods.get("n_evaluations")
+        if m is None:
+            continue
+        for r in body_walk(m.node):
+            if isinstance(r, ast.Return) and isinstance(r.value, ast.Call) and norm(r.value.func) == "len" and r.value.args and is_self_attr(r.value.args[0], None, m.self_name()):
+                attr = r.value.args[0].attr
+                for g in ci.methods.values():
+                    for st in body_walk(g.node):
+                        if isinstance(st, (ast.Assign, ast.AnnAssign)) and getattr(st, "value", None) is not None and any(is_self_attr(t, attr, g.self_name()) for t in (st.targets if isinstance(st, ast.Assign) else [st.target])):
+                            v = st.value
+                            if isinstance(v, ast.Call) and norm(v.func).split(".")[-1] == "deque" and any(k.arg == "maxlen" and not (isinstance(k.value, ast.Constant) and k.value.value is None) for k in v.keywords):
+                                out.append(ctx.ob(rule, m, r, status=VIOLATION, detail=f"{ci.name}.n_evaluations is `{norm(r.value)}`, the length of a bounded deque (`{norm(v)[:50]}`): the count stops growing at the bound although evaluations are still forwarded", construct=f"{ci.name}:bounded-counter"))
+    return out
+
+
 def r16_2(ctx: Ctx):
     """R16.2 counting law: counter += 1 exactly on forwarding paths; counter written only by the constructor (0) and evaluate."""
+    obs_pre = _bounded_counter_obs(ctx, "R16.2")
+    if obs_pre:
+        return obs_pre
     obs = []
     for ci in _wrapper_classes(ctx):
         cattr = counter_attr(ctx, ci)
